@@ -206,53 +206,94 @@ def e4_header_ceiling(ctx):
         ctx.check(R, "parse failure propagates", False, "interpreter aborted: %s" % e, f)
     # parse_header: every Err is for_bad_request; Ok payload comes from str::parse::<semver::Version> of the named header
     ph = ctx.need_fn(ctx.ds, R, r"^versioning::parse_header$")
-    region = [ph] + ctx.ds.descendants(ph)
-    nerr = 0
-    for g in region:
-        for bb, i, st in g.aggregates(r"^std::result::Result$", "Err"):
-            nerr += 1
-            sl = g.slice(st["rv"]["ops"][0])
-            ctx.check(R, "parse_header-err-is-400:%s" % g.id.split("::")[-1], sl.has_call(r"^error::HttpError::for_bad_request$"), "Err(..) built from %s" % sl.callee_names()[:6], (g, bb))
-        if g is not ph:
-            sl = g.slice({"l": 0, "p": []})
-            if g.raw["kind"] == "Closure" and "HttpError" in g.raw["locals"][0]:
-                nerr += 1
-                ctx.check(R, "parse_header-err-is-400:%s" % g.id.split("::")[-1], sl.has_call(r"^error::HttpError::for_bad_request$") and not sl.has_call(r"for_internal_error|for_unavail"),
-                          "error-mapping closure returns %s" % [c for c in sl.callee_names() if "HttpError" in c], g)
-    ctx.check(R, "parse_header-has-three-failure-exits", nerr >= 3, "failure constructors found in parse_header: %d (missing, non-ASCII, unparsable)" % nerr, ph)
+    # decided by interpretation over every combination of (header present?, ASCII?, parses?), with http/std leaves stubbed
+    got_names = []
+    chain = []
+
+    def run(ch):
+        def get(it, argv, t):
+            got_names.append(it.deref_all(argv[1]) if len(argv) > 1 else None)
+            return [A.V_none(), A.V_some(A.V_ref(A.Cell(A.V_opaque("header-value"))))][it.choose(2)]
+
+        def to_str(it, argv, t):
+            chain.append(("to_str", it.deref_all(argv[0])))
+            return [A.V_err(A.V_opaque("ToStrError")), A.V_ok(A.V_opaque("text"))][it.choose(2)]
+
+        def parse(it, argv, t):
+            chain.append(("parse", it.deref_all(argv[0])))
+            return [A.V_err(A.V_opaque("ParseError")), A.V_ok(A.V_sym("v"))][it.choose(2)]
+        summ = {
+            "http::HeaderMap::<T>::get": get,
+            "http::HeaderValue::to_str": to_str,
+            "core::str::<impl str>::parse": parse,
+            "std::str::<impl str>::parse": parse,
+            "error::HttpError::for_bad_request": lambda it, argv, t: A.V_opaque("HttpError::for_bad_request"),
+        }
+        it = A.Interp(ctx.ds, {"v": 0}, summaries=summ, opaque_callees=[r"^core::fmt::", r"^std::fmt::", r"^alloc::fmt::", r"^std::string::ToString::to_string$"], choices=ch)
+        try:
+            out = A.strip(it.call_fn(ph, [A.V_ref(A.Cell(A.V_opaque("headers"))), A.V_ref(A.Cell(A.V_opaque("header-name")))]))
+        except A.LeavesFragment as e:
+            out = "interpreter aborted: %s" % e
+        return it, (tuple(it.taken), out)
+    try:
+        outs = A.explore(run)
+    except A.LeavesFragment as e:
+        outs = [((), "interpreter aborted: %s" % e)]
+    E400 = ("enum", "Err", (("opaque", "HttpError::for_bad_request"),))
+    OKV = ("enum", "Ok", (("sym", "v"),))
+    nerr = sum(1 for ch, o in outs if o == E400)
+    for ch, o in outs:
+        want = OKV if ch == (1, 1, 1) else E400
+        ctx.check(R, "parse_header-outcome:%s" % ",".join(n if x else "not-" + n for n, x in zip(("present", "ascii", "parses"), ch)),
+                  o == want, "code=%s spec=%s" % (o, want), ph)
+    ctx.check(R, "parse_header-reads-the-named-header", bool(got_names) and all(x == ("opaque", "header-name") for x in got_names), "headers.get(..) key on all interpreted calls: %s" % sorted(set(map(str, got_names))), ph)
+    ctx.check(R, "parse_header-has-three-failure-exits", nerr >= 3 and OKV in [o for _, o in outs], "interpreted outcomes: %d failing with 400 (missing, non-ASCII, unparsable), one Ok(v)" % nerr, ph)
     st = status_const_of_ctor(ctx.ds, "for_bad_request")
     ctx.check(R, "for_bad_request-is-400", st == {400}, "status constants named in for_bad_request: %s" % sorted(st or []), nontrivial=False)
-    ret = ph.slice({"l": 0, "p": []})
-    parses = [(c, bb, t) for c, bb, t in ret.calls(r"str::<impl str>::parse$")]
+    okc = bool(chain) and all(x == ("to_str", ("opaque", "header-value")) or x == ("parse", ("opaque", "text")) for x in chain)
     # parse_header is generic in the parsed type: str::parse::<T> with T instantiated to semver::Version by the policy
+    parses = [t for g in [ph] + ctx.ds.descendants(ph) for bb, t in g.live_calls(r"str::<impl str>::parse$")]
     inst = [t for bb, t in f.live_calls(r"^versioning::parse_header$")]
     okp = bool(parses) and bool(inst) and all(any("semver::Version" in g for g in t.get("gargs", [])) for t in inst) and \
-        all(any(g.startswith("T/") or "semver::Version" in g for g in t.get("gargs", [])) for c, bb, t in parses)
-    hdr = ret.calls(r"http::HeaderMap::<T>::get$")
-    okh = bool(hdr) and all(ph.slice(t["args"][1]).params() == [2] for c, bb, t in hdr)
-    ctx.check(R, "parse_header-parses-semver-of-named-header", okp and okh, "Ok payload from str::parse::<semver::Version>=%s of headers.get(header_name)=%s" % (okp, okh), ph)
+        all(any(g.startswith("T/") or "semver::Version" in g for g in t.get("gargs", [])) for t in parses)
+    ctx.check(R, "parse_header-parses-semver-of-named-header", okp and okc, "Ok payload from str::parse::<semver::Version>=%s applied to to_str() of the fetched header value=%s" % (okp, okc), ph)
 
 
 def r5_routed_at_that_version(ctx):
     R = ctx.rule("C05.R5", "request_version returns the dynamic policy's result through map(Some) only; http_request_handle hands exactly that version to lookup_route and its `?` dominates lookup and handlers", floor=4)
     rv = ctx.need_fn(ctx.ds, R, r"^versioning::VersionPolicy::request_version$")
-    calls = rv.live_calls(r"DynamicVersionPolicy::request_extract_version$")
-    ctx.check(R, "one-policy-call", len(calls) == 1, "request_extract_version call sites: %d" % len(calls), rv)
-    ret = rv.slice({"l": 0, "p": []})
-    bad = callee_allow(ret, PLUMBING + [r"DynamicVersionPolicy::request_extract_version$", r"Result::<T, E>::map$"])
-    some_only = ("fnitem", "std::prelude::v1::Some") in ret.atoms or ("fnitem", "std::option::Option::Some") in ret.atoms or any(a[0] == "fnitem" and a[1].endswith("Some") for a in ret.atoms)
-    ctx.check(R, "result-returned-unmodified", not bad and some_only and ret.has_call(r"request_extract_version$"),
-              "return value slice: callees=%s, mapped with Some=%s" % ([b[0] for b in bad] or "only policy call + Result::map", some_only), rv)
-    if calls:
-        bb, t = calls[0]
-        s_req = rv.slice(t["args"][1])
-        ctx.check(R, "policy-sees-this-request", s_req.params() == [2] and not callee_allow(s_req, PLUMBING), "request argument slices to params %s" % s_req.params(), (rv, bb))
-    # unversioned arm: Ok(None)
-    oks = [(bb, st) for bb, i, st in rv.aggregates(r"^std::result::Result$", "Ok") if st["pl"]["l"] == 0]
-    ctx.check(R, "unversioned-is-Ok(None)", len(oks) == 1 and any(a[0] == "agg" and a[2] == "None" for a in rv.slice(oks[0][1]["rv"]["ops"][0]).atoms) if oks else False,
-              "direct Ok(..) returns: %d" % len(oks), rv)
-    top = ctx.need_fn(ctx.ds, R, r"^server::http_request_handle$")
-    hb = ctx.ds.body_of(top)
+    # request_version is decided by interpretation: for each policy variant and each outcome of the dynamic policy
+    # (stubbed), over every resolution of the branches the fragment does not model (log-level tests)
+    adt = "versioning::VersionPolicy"
+    seen_req = []
+
+    def outcomes(variant, policy_result):
+        def run(ch):
+            def policy(it, argv, t):
+                seen_req.append(it.deref_all(argv[1]) if len(argv) > 1 else None)
+                return policy_result()
+            it = A.Interp(ctx.ds, {"v": 0}, summaries={"versioning::DynamicVersionPolicy::request_extract_version": policy},
+                          opaque_callees=[r"^slog::", r"^core::fmt::", r"^std::fmt::", r"<slog::"], sym_types=SYM_TYPES, choices=ch)
+            selfv = A.V_enum(adt, it.vidx(adt, variant), variant, [A.V_ref(A.Cell(A.V_opaque("policy")))] if variant == "Dynamic" else [])
+            try:
+                return it, A.strip(it.call_fn(rv, [A.V_ref(A.Cell(selfv)), A.V_ref(A.Cell(A.V_opaque("request"))), A.V_ref(A.Cell(A.V_opaque("log")))]))
+            except A.LeavesFragment as e:
+                return it, "interpreter aborted: %s" % e
+        try:
+            return A.explore(run)
+        except A.LeavesFragment as e:
+            return ["interpreter aborted: %s" % e]
+    cases = [("unversioned-is-Ok(None)", "Unversioned", None, ("enum", "Ok", (("enum", "None", ()),))),
+             ("policy-Ok(v)-is-Ok(Some(v))", "Dynamic", lambda: A.V_ok(A.V_sym("v")), ("enum", "Ok", (("enum", "Some", (("sym", "v"),)),))),
+             ("policy-Err(e)-is-Err(e)", "Dynamic", lambda: A.V_err(A.V_opaque("policy-error")), ("enum", "Err", (("opaque", "policy-error"),)))]
+    for key, variant, res, want in cases:
+        got = outcomes(variant, res)
+        ctx.check(R, key, bool(got) and all(g == want for g in got), "request_version on %s: %d path(s), outcomes %s, spec %s" % (variant, len(got), sorted(set(map(str, got)))[:3], want), rv)
+    ctx.check(R, "policy-sees-this-request", bool(seen_req) and all(x == ("opaque", "request") for x in seen_req),
+              "the dynamic policy is called with request_version's own `request` on all %d interpreted calls" % len(seen_req), rv)
+    # normalised view: `request_version(..).and_then(|v| lookup_route(.., v))` is the same program as `let v = request_version(..)?; lookup_route(.., v)?`
+    top = ctx.need_fn(ctx.dsn, R, r"^server::http_request_handle$")
+    hb = ctx.dsn.body_of(top)
     rvc = hb.live_calls(r"VersionPolicy::request_version$")
     look = hb.live_calls(r"HttpRouter::<Context>::lookup_route$")
     if len(rvc) != 1 or len(look) != 1:
